@@ -38,9 +38,10 @@ CHECKS = {
     },
     "C08": {
         "level": "exploration",
+        "needs_cli": True,
         "rule": "exhaustive: all BL(k) layouts x zoom option list x items_per_slot x pass x compression, plus multi-chromosome cases; every stored level compared record by record with the coverage-depth array. non-trivial = a zoom level is present and >=2 entries",
         "require": ["files_with_zoom_levels_read", "cases_with_overlapping_entries",
-                    "files_with_2+_blocks_in_a_zoom_level", "files_with_2+_zoom_levels", "zoom_range_queries"],
+                    "files_with_2+_blocks_in_a_zoom_level", "files_with_2+_zoom_levels", "zoom_range_queries", "tool_zoom_runs"],
         "assumptions": E1_ASSUME,
     },
     "C03": {
@@ -53,9 +54,10 @@ CHECKS = {
     },
     "C04": {
         "level": "model_checking",
+        "needs_cli": True,
         "technique": "bounded-exhaustive range enumeration plus explicit enumeration of all query histories up to a depth on one reader instance (real code), each answer compared with a must-include / must-exclude reference",
         "rule": "exhaustive: BL(k) layouts (quick: those where an earlier entry ends after a later one) x (items_per_slot 1..3, block_size 2..3) x all 136 ranges x 4 access paths, multi-chromosome core files, and all query histories of length d on plain and caching readers. Oracle: every entry with positive overlap returned once in stored order, none wholly outside; touching entries don't-care. non-trivial = >=2 entries",
-        "require": ["range_files", "files_with_2+_blocks", "files_with_2+_index_levels", "files_with_block_max_end_not_last", "histories"],
+        "require": ["range_files", "files_with_2+_blocks", "files_with_2+_index_levels", "files_with_block_max_end_not_last", "histories", "tool_range_runs"],
         "mc_counters": {"states": "history_distinct_answer_vectors", "transitions": "history_transitions", "traces": "histories"},
         "assumptions": E1_ASSUME,
     },
@@ -134,9 +136,10 @@ CHECKS = {
     },
     "C10": {
         "level": "exploration",
+        "needs_cli": True,
         "rule": "exhaustive cross product emitted by the independent encoder (harness/vh/src/enc.rs): {little, big endian} x {v1 raw, v2 raw, v3 raw/zlib, v4 raw/zlib} x 5 bigWig contents (bedGraph / variable-step / fixed-step sections, mixed) + 3 bigBed contents x chromosome-tree block sizes (single leaf and multi-level) x R-tree fan-outs x node placements (level order, depth first, children before the header, padded) x zoom variants x index-at-end / trailing magic; each file is first cross-checked by the independent decoder, then opened with BigWigRead/BigBedRead/GenericBBIRead, plain and cached: chroms, summary, all 153 ranges, values(), zoom queries, autosql, item count = encoded content. non-trivial = every file",
         "require": ["encoded_files", "big_endian_files", "compressed_files", "version1_files", "multi_level_chrom_tree_files",
-                    "files_with_3+_index_levels", "range_queries", "zoom_queries"],
+                    "files_with_3+_index_levels", "range_queries", "zoom_queries", "tool_convert_runs"],
         "assumptions": E1_ASSUME + ["only combinations the published format allows are emitted (compression only from version 3, summary offset 0 only in version 1, sorted chromosome keys)",
                                     "files that are not well-formed (reader robustness) are outside the statement"],
     },
